@@ -41,3 +41,50 @@ CONFIG["C15"] = dict(
                "uniformity of the distribution is argued in DESIGN.md but only the structural facts are theorems so far",
     assumptions=["PRG bytes are as in C14"],
 )
+
+CONFIG["C05"] = dict(
+    lean_modules=["Props.C05"],
+    generators=["C05"],
+    level="proof",
+    rule="per decoder (BLS private/public/signature parsing, ECDSA private/raw public/compressed public on P-256 and secp256k1): all lengths 0..200, "
+         "boundary scalars (0,1,r-1,r,r+1,2^256-1), every flag-bit combination, coordinates 0,1,p-1,p,p+1,2^381-1, x+p twins, infinity encodings with a "
+         "non-zero byte at each position, on-curve points outside the subgroup built by the model (E1 and E2, torsion and full order), single-bit flips, "
+         "every compressed prefix byte; outcome class and re-encoded bytes compared with the Lean codec model; Equal round trip evaluated on the implementation",
+    trusted_base=COMMON_TB + ["modelled, not verified: BLST field/curve arithmetic and subgroup checks, crypto/elliptic, crypto/ecdh, btcec (compared on the generated catalogue)"],
+    technique="Lean 4 proof (accepts-iff / canonical / round-trip theorems for scalar and raw-point codecs) + differential run of codec model vs real decoders",
+    level_text="Theorems for all byte strings: BLS and ECDSA private-key decoders and the raw ECDSA public-key decoder accept exactly the canonical encodings and re-encode to the input. "
+               "Point codecs with square roots (E1, E2, compressed ECDSA) are executable model + correspondence in this round (partial).",
+    level_note="Lean kernel; point decompression laws (need Fermat/Euler in ZMod p) not yet theorems; known finding F2 (component order vs ZCash) is reported as KNOWN-FINDING",
+    assumptions=["BLST and Go standard library arithmetic agree with the model outside the generated catalogue"],
+)
+
+CONFIG["C11"] = dict(
+    lean_modules=["Props.C11"],
+    generators=["C11"],
+    level="proof",
+    rule="both curves x keys {1, n-1, random} x messages x all 8 supported hashers: honest signature, twin (r,n-s), other message/key/hasher, r/s swapped, "
+         "r or s in {0,n,n+1,2^256-1,r+n,s+n}, bit flips, lengths 0,1,63,65,128; the model verifies with its own curve arithmetic from the hash bytes; "
+         "SignatureFormatCheck=false => Verify=false evaluated on the implementation; hasher guards (nil, 16, 31 bytes)",
+    trusted_base=COMMON_TB + ["modelled, not verified: crypto/ecdsa, crypto/elliptic, btcec (that they compute the ECDSA equation is established by the correspondence run)"],
+    technique="Lean 4 proof (decision logic of verification and format check) + differential run of ECDSA model vs real Verify",
+    level_text="Theorems for every curve parameter set, key, hash and signature string: format check false implies verify false; a verifying signature is 64 bytes with 1<=r,s<n; only the leftmost 256 hash bits matter; guards tied to the extracted conditions. "
+               "Group-level facts (twin, sign=>verify) are checked by correspondence only so far (partial).",
+    level_note="Lean kernel; the verification equation itself is the model (Model.Ecdsa.verifyHash) compared with crypto/ecdsa and btcec",
+    assumptions=["hash bytes are produced by the real hashers (tied separately by C13)"],
+)
+
+CONFIG["C13"] = dict(
+    lean_modules=["Props.C13"],
+    generators=["C13"],
+    level="proof",
+    rule="5 hashers: every message length 0..2*rate+1 (thorough 4*rate+1) via ComputeHash, never-reset Write+SumHash and one-shot helper; 2-splits of every length "
+         "(quick: stride 7 with random phase; thorough: every cut); random multi-splits up to 6 blocks; op interleavings of Write/SumHash/Reset/ComputeHash (only documented sequences); "
+         "KMAC128: every key length 0..400 (thorough 0..699), customizer lengths 0..200, output sizes incl. negative, 0 and >rate, data lengths 0..337, interleavings; long messages; "
+         "digests compared with the standards as implemented in Lean (FIPS 180-4, FIPS 202 pad-then-absorb reference cross-checked at run time against the refHash of the theorems, SP 800-185)",
+    trusted_base=COMMON_TB + ["modelled, not verified: Go crypto/sha256, crypto/sha512, x/crypto/sha3 cSHAKE, the amd64 Keccak assembly / pure Go keccakF1600 (compared with Model.KeccakF / Model.Sha2, themselves checked against KATs in the kernel)"],
+    technique="Lean 4 proof (all-splits theorem for the Go sponge buffer logic over an arbitrary permutation; bytepad minimality; KMAC object laws) + differential run vs FIPS/SP 800-185 reference",
+    level_text="Theorems: for every rate>0, domain byte, absorb function, prior state and every split into Write calls, Reset+Writes+SumHash = reference digest; ComputeHash independent of prior state; "
+               "never-reset sentinel; one-shot helpers; bytepad aligned+minimal using the pad expression regenerated from kmac.go; KMAC guards and clone semantics. left_encode/right_encode for all values: KATs + correspondence only (partial).",
+    level_note="Lean kernel; keccakF1600 and SHA-2 compression functions are compared, not verified; refHash (absorb full blocks then padded block) vs FIPS pad-then-absorb equivalence is checked at run time on every case, not proved",
+    assumptions=["outputs of the sponge hashers are not longer than the rate (true for the three configured ones)"],
+)
